@@ -11,6 +11,7 @@ Expected(e) ==
     [] e.op = "Duration.negated" -> Ok(NegDur(e.args.recv))
     [] e.op = "Duration.abs" -> Ok(AbsDur(e.args.recv))
     [] e.op = "Duration.sign" -> Ok(DurSign(e.args.recv))
+    [] e.op = "Duration.timeInRange" -> Ok(TimeFieldsInRange(e.args.recv))
     [] e.op = "Duration.add" -> DurAdd(e.args.recv, e.args.other)
     [] e.op = "Duration.subtract" -> DurSub(e.args.recv, e.args.other)
     [] e.op = "Duration.compare" -> DurCompare(e.args.recv, e.args.other)
